@@ -7,15 +7,23 @@
      id <hex c>           -> id <0|1> <0|1>                         is_ident1 is_ident2
      u16 <hex c>          -> u16 <hex unit> ...                     units stored by read_utf16_string_literal
      int <hex bytes>      -> int <hex val> <ty> | int no            convert_pp_int on the token text
-     esc <hex bytes>      -> esc <hex val32> <consumed> | esc err   read_escaped_char (text after the backslash)
+     esc <hex bytes>      -> esc <hex val32> <consumed> | esc err   read_escaped_char (text after the backslash); runs the
+                                                                    *translated* function (Gen/LitReadersGen.lean)
+     fhex <hex byte>      -> fhex <hex val32>                       from_hex (translated)
+     ruc <len> <hex bytes>-> ruc <hex val32>                        read_universal_char(p, len) (translated)
+     sle <start> <hex>    -> sle <index> | sle err                  string_literal_end(text + start) (translated)
+     rsl n|u16|u32 <quote> <hex> -> rsl <n> <units> <end> | rsl err <e>   read_string_literal / read_utf16_… / read_utf32_…(text, text + quote) (translated)
+     rcl <quote> <hex>    -> rcl <hex c> <index of closing quote> | rcl err <e>   read_char_literal(text, text + quote, ty) (translated)
      lit <hex bytes>      -> lit int|flt|chr|str ... | lit err <e>  tokenize() on a text that starts with a literal
-     text <hex bytes>     -> text <hex bytes>                       BOM skip + phases of tokenize_file
+     text <hex bytes>     -> text <hex bytes> | text oob            BOM skip + phases of tokenize_file; runs the *translated*
+                                                                    in-place loops (Gen/LitReadersGen.lean); oob = a store outside the text
      join <hex> <hex> ... -> join <ty> <n> <hex units> | join err   join_adjacent_string_literals on adjacent literals
      file <hex bytes>     -> file <hex text> int|flt|chr|str ... | file <hex text> other | file err <e>
                                                                     tokenize_file: phases, then the first token
 -/
 import ChibiVerif.Model.Literals
 import ChibiVerif.Model.Text
+import ChibiVerif.Model.LitReaders
 
 namespace ChibiVerif.Driver
 open ChibiVerif.Gen.Literals
@@ -126,17 +134,54 @@ def literalsLine (ws : List String) : String :=
   | ["esc", h] =>
     match parseBytes h with
     | some p =>
-      match readEscapedChar p with
+      match ChibiVerif.Gen.LitReaders.readEscapedChar p with
       | .ok (c, n) => s!"esc {hexOf c.toNat} {n}"
       | .error _ => "esc err"
     | none => "bad-op"
+  | ["fhex", h] =>
+    match parseBytes h with
+    | some [b] => s!"fhex {hexOf (ChibiVerif.Gen.LitReaders.fromHex b).toNat}"
+    | _ => "bad-op"
+  | ["ruc", n, h] =>
+    match n.toNat?, parseBytes h with
+    | some len, some p => s!"ruc {hexOf (ChibiVerif.Gen.LitReaders.readUniversalChar p len).toNat}"
+    | _, _ => "bad-op"
+  | ["sle", n, h] =>
+    match n.toNat?, parseBytes h with
+    | some start, some p =>
+      match ChibiVerif.Gen.LitReaders.stringLiteralEnd p start with
+      | .ok i => s!"sle {i}"
+      | .error _ => "sle err"
+    | _, _ => "bad-op"
+  | ["rsl", k, n, h] =>
+    match n.toNat?, parseBytes h with
+    | some quote, some p =>
+      let r := match k with
+        | "n" => ChibiVerif.Gen.LitReaders.readStringLiteral p quote
+        | "u16" => ChibiVerif.Gen.LitReaders.readUtf16StringLiteral p quote
+        | _ => ChibiVerif.Gen.LitReaders.readUtf32StringLiteral p quote
+      match r with
+      | .ok (units, e) => s!"rsl {units.length + 1} {unitsStr units} {e}"
+      | .error e => s!"rsl err {errName (ChibiVerif.LitReaders.ofReadErr e)}"
+    | _, _ => "bad-op"
+  | ["rcl", n, h] =>
+    match n.toNat?, parseBytes h with
+    | some quote, some p =>
+      match ChibiVerif.Gen.LitReaders.readCharLiteral p quote with
+      | .ok (c, e) => s!"rcl {hexOf c.toNat} {e}"
+      | .error e => s!"rcl err {errName (ChibiVerif.LitReaders.ofReadErr e)}"
+    | _, _ => "bad-op"
   | ["lit", h] =>
     match parseBytes h with
     | some p => litLine p
     | none => "bad-op"
   | ["text", h] =>
     match parseBytes h with
-    | some p => s!"text {bytesHex (ChibiVerif.Text.phase12 p)}"
+    | some p =>
+      match ChibiVerif.Gen.LitReaders.canonicalizeNewline (ChibiVerif.Text.skipBOM (ChibiVerif.Text.ensureFinalNewline p)) >>=
+          ChibiVerif.Gen.LitReaders.removeBackslashNewline >>= ChibiVerif.Gen.LitReaders.convertUniversalChars with
+      | some y => s!"text {bytesHex y}"
+      | none => "text oob"
     | none => "bad-op"
   | ["file", h] =>
     match parseBytes h with
